@@ -2,6 +2,7 @@
 import common as C
 from props._runcommon import RUN_TRUSTED, RUN_ASSUMPTIONS, PropRunStream
 from run import selftest as W
+from run import witnesses2 as W2
 
 PROPERTY = "C11"
 LEAN_MODULES = ["LccModel.Props.C11", "LccModel.Props.C11Events"]
@@ -46,7 +47,7 @@ class Run(PropRunStream):
     quick_cases = 480
     quick_seconds = 60
     p_fault = 0.9
-    corpus = [witness("D17 "), witness("D10 ")]
+    corpus = [witness("D17 "), witness("D10 "), W2.EMPTY_BACKEND_ERROR]
 
 
 def streams(ctx):
